@@ -411,12 +411,22 @@ def matrix_determinant(m):
     :return: determinant of the matrix
     :rtype: float
     """
-    mp, p, sign = matrix_pivot(m, sign=True)
-    m_l, m_u = lu_decomposition(mp)
+    n = len(m)
+    mp = [[float(val) for val in row] for row in m]
     det = 1.0
-    for i in range(len(m)):
-        det *= m_l[i][i] * m_u[i][i]
-    det *= sign
+    for j in range(n):
+        # Partial pivoting on the current (already eliminated) column
+        row = max(range(j, n), key=lambda i: abs(mp[i][j]))
+        if mp[row][j] == 0.0:
+            return 0.0
+        if row != j:
+            mp[j], mp[row] = mp[row], mp[j]
+            det = -det
+        det *= mp[j][j]
+        for i in range(j + 1, n):
+            factor = mp[i][j] / mp[j][j]
+            for q in range(j, n):
+                mp[i][q] -= factor * mp[j][q]
     return det
 
 
